@@ -898,6 +898,10 @@ func buildRequest(m *model, q Req, k int, knownID string, sc Scenario, desc *des
 			trh.Protocol = headers.TransportProtocolUDP
 			p0 := m.port()
 			trh.ClientPorts = &[2]int{p0, p0 + 1}
+			// "RTP/AVP;client_port=a-b": no unicast / multicast token at all (client ports say unicast)
+			if core.HS(sc.Seed, "c02.nodelivery", "", uint64(k)*131+uint64(p0))%5 == 0 {
+				trh.Delivery = nil
+			}
 		} else {
 			trh.Protocol = headers.TransportProtocolTCP
 		}
